@@ -546,10 +546,12 @@ class RaggedArray(IndexableArray, np.lib.mixins.NDArrayOperatorsMixin):
         return ra - offsets[:, None]
 
     def _row_accumulate(self, operator, dtype=None):
-        starts = self.ravel()[self._shape.starts]
+        if self.size == 0:
+            return self.__class__(self.ravel().copy(), self._shape)
+        starts = self.ravel()[np.minimum(self._shape.starts, self.size-1)]
         cm = operator.accumulate(self.ravel(), dtype=dtype)
         offsets = INVERSE_FUNCS[operator][0](
-            starts, cm[self._shape.starts]
+            starts, cm[np.minimum(self._shape.starts, self.size-1)]
         )  # TODO: This is the inverse
         ra = self.__class__(cm, self._shape)
         return INVERSE_FUNCS[operator][1](ra, offsets[:, None])
